@@ -469,8 +469,9 @@ def describe(rep):
         "Effect and ordering analyses over src/food_system, src/optimizer, src/scenarios (nothing executed). C14.STATE: an "
         "inventory of process-wide mutable state (Food.conversions, class/module-level containers, mutable default arguments, "
         "global statements) with the rule that only UnitConversions.set_nutrition_requirements writes the conversion settings, "
-        "that object is never rebound, every caller passes all six settings, and no other shared container or default is "
-        "written. C14.RESET: the writer is straight-line `self.x = f(parameters, earlier x)` (no dependence on previous state), "
+        "that object is never rebound, every caller passes all six settings, no other shared container or default is "
+        "written, and no object returned by a memoised function (lru_cache, cache, *memo*) is stored into, mutated in place or "
+        "handed to a callee that mutates it. C14.RESET: the writer is straight-line `self.x = f(parameters, earlier x)` (no dependence on previous state), "
         "every setting read anywhere is assigned by it, exclude_* = not include_*; compute_parameters_first_round establishes "
         "the settings right after init_scenario and before the first step that builds food quantities; run_and_analyze_scenario "
         "does nothing before that call and later rounds follow it. C14.FRESH: Parameters/Interpreter/Optimizer/Scenarios/"
